@@ -235,3 +235,80 @@ func sourceCalls() (map[string]string, bool) {
 	}
 	return out, true
 }
+
+// sourceLogs: the log statements on Parse's path - every Logger.Msg("..") in Parse, hostOnline, onlineTransition,
+// findOrCreateHostWithLock and echoNotify - with the level that guards them lexically ("info" / "debug" when an
+// enclosing if tests IsInfo() / IsDebug(), "always" otherwise), as sorted rows "func:guard:message".
+func sourceLogs() (string, bool) {
+	repo := os.Getenv("VERIF_REPO")
+	if repo == "" {
+		repo = "/repo"
+	}
+	names, _ := filepath.Glob(filepath.Join(repo, "*.go"))
+	fset := token.NewFileSet()
+	want := map[string]bool{"Parse": true, "hostOnline": true, "onlineTransition": true, "findOrCreateHostWithLock": true, "echoNotify": true}
+	var rows []string
+	seen := 0
+	for _, n := range names {
+		if strings.HasSuffix(n, "_test.go") {
+			continue
+		}
+		f, err := parser.ParseFile(fset, n, nil, 0)
+		if err != nil {
+			return "", false
+		}
+		for _, d := range f.Decls {
+			fd, ok := d.(*ast.FuncDecl)
+			if !ok || fd.Body == nil || !want[fd.Name.Name] {
+				continue
+			}
+			seen++
+			var walk func(n ast.Node, guard string)
+			walk = func(n ast.Node, guard string) {
+				ast.Inspect(n, func(x ast.Node) bool {
+					switch y := x.(type) {
+					case *ast.IfStmt:
+						g := guard
+						cond := ""
+						ast.Inspect(y.Cond, func(c ast.Node) bool {
+							if se, ok := c.(*ast.SelectorExpr); ok {
+								cond += se.Sel.Name + " "
+							}
+							return true
+						})
+						if strings.Contains(cond, "IsDebug") {
+							g = "debug"
+						} else if strings.Contains(cond, "IsInfo") && g != "debug" {
+							g = "info"
+						}
+						if y.Init != nil {
+							walk(y.Init, guard)
+						}
+						walk(y.Body, g)
+						if y.Else != nil {
+							walk(y.Else, guard)
+						}
+						return false
+					case *ast.CallExpr:
+						if se, ok := y.Fun.(*ast.SelectorExpr); ok && se.Sel.Name == "Msg" && len(y.Args) == 1 {
+							if lit, ok := y.Args[0].(*ast.BasicLit); ok {
+								msg, _ := strconv.Unquote(lit.Value)
+								rows = append(rows, fd.Name.Name+":"+guard+":"+strings.ReplaceAll(msg, " ", "_"))
+							}
+						}
+					}
+					return true
+				})
+			}
+			walk(fd.Body, "always")
+		}
+	}
+	if seen < len(want) {
+		return "", false
+	}
+	sort.Strings(rows)
+	if len(rows) == 0 {
+		return "-", true
+	}
+	return strings.Join(rows, ","), true
+}
